@@ -49,6 +49,16 @@ CLAIMED = {
         "three-view agreement response/JWT/introspection); its inductive proof is not finished — claimed as partial.",
    note="PARTIAL: the all-histories invariant is tied by correspondence + oracle, not yet proved; token exchange, client-credentials and password grants not modelled.",
    technique="Lean 4 proof of the decision logic + model/implementation correspondence on histories with per-step scope projection", ref="6 C05"),
+ "C10": dict(
+   text="Lean theorems, generic in the schema and unbounded in message size: dict/JSON round trip and form-encoding round trip (equal up to the "
+        "textual rendering of integers and booleans) for every message valid for its schema; percent-decoding inverts percent-encoding on every "
+        "byte string; encoded values contain no separator; parse_qsl(urlencode ps) = ps. The schemas of all Message subclasses (109 classes, "
+        "~860 parameters today) are regenerated from the source on every run and the table obligations (every parameter of a modelled kind "
+        "or of a known-opaque triple; modelled share >= 85 %) are re-decided by the kernel. Tie: per class x parameter x format cell "
+        "correspondence of serialised form, percent-encoded text and deserialised value, plus codec correspondence on hostile strings.",
+   note="PARTIAL for opaque kinds (nested messages, JSON objects, identity-assurance specials: ~10 % of parameters): real round-trip only where "
+        "generated; JSON text codec and JWS/JWE idealised; negative integers and message-level multi-parameter interactions beyond the pointwise law not modelled.",
+   technique="Lean 4 proof (generic round-trip laws + kernel-decided obligations over translator-regenerated schema tables) + cell correspondence", ref="6 C10"),
 }
 NOT_YET = {}
 ALL = [f"C{i:02d}" for i in range(1, 21)]
